@@ -182,6 +182,59 @@ func c18ParseWritten(line string) (l c18Line, ok bool) {
 	return l, true
 }
 
+// c18BigList: one engine over several hundred hosts lines (the per-line checks
+// above never give a lookup table more than a handful of names): every listed
+// name is answered with exactly the lines that list it.
+func c18BigList(c *Ctx) (evals int64) {
+	for _, n := range []int{100, 509, 1200} {
+		var lines []string
+		listedBy := map[string][]string{}
+		add := func(line string, names ...string) {
+			lines = append(lines, line)
+			for _, nm := range names {
+				listedBy[nm] = append(listedBy[nm], line)
+			}
+		}
+		for i := 0; i < n; i++ {
+			nm := fmt.Sprintf("h%04d.big.test", i)
+			add("0.0.0.0 "+nm, nm)
+		}
+		add("192.168.0.1 dual.big.test", "dual.big.test")
+		add("0.0.0.0 victim.big.test", "victim.big.test")
+		add("2000::1 dual.big.test", "dual.big.test")
+		for _, k := range []int{9, 17, 33} {
+			var names []string
+			for j := 0; j < k; j++ {
+				names = append(names, fmt.Sprintf("m%d-%02d.big.test", k, j))
+			}
+			add("10.0.0."+fmt.Sprint(k)+" "+strings.Join(names, " "), names...)
+		}
+		e := urlfilter.NewDNSEngine(stringStorage(joinLines(lines) + "\n"))
+		probes := []string{"dual.big.test", "victim.big.test", "h0000.big.test", fmt.Sprintf("h%04d.big.test", n-1), fmt.Sprintf("h%04d.big.test", n/2), "absent.big.test", "m9-00.big.test", "m9-08.big.test", "m17-16.big.test", "m33-32.big.test", "m33-15.big.test", "m33-33.big.test"}
+		for i := 0; i < n; i += n/50 + 1 {
+			probes = append(probes, fmt.Sprintf("h%04d.big.test", i))
+		}
+		for _, p := range probes {
+			evals++
+			res, matched := e.MatchRequest(&urlfilter.DNSRequest{Hostname: p, DNSType: 1})
+			var got []string
+			for _, h := range res.HostRulesV4 {
+				got = append(got, h.RuleText)
+			}
+			for _, h := range res.HostRulesV6 {
+				got = append(got, h.RuleText)
+			}
+			if !eqStrings(sortedSet(got), sortedSet(listedBy[p])) || matched != (len(listedBy[p]) > 0) {
+				c.Run.Violate(ev.Violation{Pred: "engine-returns-rule-iff-listed", Sig: map[string]any{"big_list": n, "query": p},
+					What:   fmt.Sprintf("DNSEngine over %d hosts lines, query %q: matched=%v rules=%v; the lines that list the name are %v", len(lines), p, matched, got, listedBy[p]),
+					Replay: map[string]any{"line": "0.0.0.0 example.org", "addr": "0.0.0.0", "names": []string{"example.org"}}})
+				return evals
+			}
+		}
+	}
+	return evals
+}
+
 var c18FileSeq atomic.Int64
 
 // c18FileEngine asks the DNS engine over three *file-backed* lists: a list with
@@ -366,6 +419,7 @@ func init() {
 			}
 			c18Check(c, picked[i], false)
 		})
+		c.Run.Set("big_list_evaluations", c18BigList(c))
 		c.Run.Set("corpus_lines", int64(len(picked)))
 		c.Run.Set("evaluations", int64(len(lines)+len(picked)))
 		c.Run.Set("distinct_nontrivial", int64(len(lines)))
